@@ -31,6 +31,7 @@ def make_plan(tape, prop):
     if syntax == "isar":
         for f in ("arr_dynamic", "arr_greedy", "bytes"):
             feats[f] = False
+        feats["_forbid"] = ("arr_dynamic", "arr_greedy", "bytes")
     schema = gs.gen_schema(tape, cpp=True, feats=feats)
     plan = {"sim": "comp", "prop": prop, "syntax": syntax, "schema": schema}
     text = render.prophy_text(schema) if syntax == "prophy" else render.isar_text(schema["defs"])
